@@ -121,7 +121,8 @@ pub fn foreign_candidates(cfg: &FileCfg, t0_ns: i64) -> Vec<String> {
 /// flexi_logger's own (lenient) view of which names belong to the family, re-implemented from
 /// FileSpec::filter_files + InfixFilter: the extension must be the suffix (or gz), the stem must
 /// start with "<fixed>_", and only the part of the rest up to the first '.' is looked at.
-/// A foreign name that passes this view is an instance of the listed finding KF-C14-1.
+/// This is the filter of the pinned tree, repaired by f3ef7d9 (formerly finding KF-C14-1); the
+/// predicate is kept to classify such names in the evidence.
 pub fn lenient_family(cfg: &FileCfg, name: &str) -> bool {
     let p = std::path::Path::new(name);
     let ext = p.extension().map(|e| e.to_string_lossy().to_string());
@@ -291,11 +292,8 @@ impl Property for P {
             .prop_flat_map(|(cfg, t0)| {
                 let runs = runs_strat(&cfg, 3, false, 16);
                 let all = foreign_candidates(&cfg, t0.to_ns());
-                let strict: Vec<String> = all.iter().filter(|n| !lenient_family(&cfg, n)).cloned().collect();
-                // the names of the listed finding KF-C14-1 are kept in 15% of the cases only, so
-                // that the search continues around it
-                let foreign = prop::bool::weighted(0.15).prop_flat_map(move |with_lenient| {
-                    let cands = if with_lenient || strict.is_empty() { all.clone() } else { strict.clone() };
+                let foreign = Just(()).prop_flat_map(move |()| {
+                    let cands = all.clone();
                     let n = cands.len();
                     proptest::sample::subsequence(cands, 1..=n.min(8))
                 }).prop_flat_map(|names| {
@@ -381,15 +379,11 @@ impl Property for P {
         }
         let lenient = case.foreign.iter().any(|f| lenient_family(cfg, &f.name) && classify(cfg, &f.name).is_none());
         if lenient {
-            out.class("foreign-name-accepted-by-lenient-filter");
+            out.class("name-the-former-lenient-filter-adopted");
         }
         if crate::props::unsortable_format_with_cleanup(cfg) {
             if let Some(f) = out.fail.take() {
                 out.set_fail(crate::props::SIG_UNSORTABLE, format!("{}: {}", f.sig, f.msg));
-            }
-        } else if lenient {
-            if let Some(f) = out.fail.take() {
-                out.set_fail(SIG_LENIENT, format!("{}: {}", f.sig, f.msg));
             }
         }
         out
